@@ -389,7 +389,7 @@ inline Plan minimise(Engine& e, const Plan& start, const std::string& cls, Minim
 
 // ------------------------------------------------------------------ batch runner
 struct BatchOptions {
-    std::string mode, tier, outdir, property;
+    std::string mode, tier, outdir, property, hash_out;
     uint64_t seed; uint64_t runs; int jobs; double budget_s; int max_viol; uint64_t recheck_every;
     BatchOptions() : seed(1), runs(1000), jobs(16), budget_s(60), max_viol(4), recheck_every(97) {}
 };
@@ -412,7 +412,7 @@ inline int run_batch(Engine& e, const BatchOptions& o) {
     uint64_t recheck_runs = 0, recheck_mismatch = 0;
     std::vector<std::pair<uint64_t, std::string> > viols;     // (seed, class) raw
     std::vector<int64_t> crashed_idx;
-    std::vector<std::string> samples;
+    std::vector<std::string> samples; std::map<int64_t, uint64_t> run_hashes;
     auto spawn = [&](int w) {
         int p[2]; if (pipe(p)) return;
         fflush(stdout); fflush(stderr);
@@ -461,7 +461,7 @@ inline int run_batch(Engine& e, const BatchOptions& o) {
         if (l.compare(0, 2, "S ") == 0) { if (samples.size() < 6) samples.push_back(l.substr(2)); return; }
         if (l.compare(0, 2, "R ") != 0) return;
         KV kv(l.substr(2));
-        ++runs_done; int64_t i = kv.num("i"); next_idx[w] = i + J;
+        ++runs_done; int64_t i = kv.num("i"); next_idx[w] = i + J; if (!o.hash_out.empty()) run_hashes[i] = kv.u64("h");
         uint64_t sg = kv.u64("sched"); scheds.insert(sg);
         if (kv.num("nt")) { ++nontrivial_runs; scheds_nontrivial.insert(sg); }
         sim_us += kv.num("sim");
@@ -496,6 +496,7 @@ inline int run_batch(Engine& e, const BatchOptions& o) {
         }
     }
     double t_search = wall_now() - t0;
+    if (!o.hash_out.empty()) { FILE* hf = fopen(o.hash_out.c_str(), "wb"); if (hf) { for (auto& kv : run_hashes) fprintf(hf, "%lld %llu\n", (long long)kv.first, (unsigned long long)kv.second); fclose(hf); } }
     // ---- classify crashes (re-run the seed in a child, stderr captured)
     for (int64_t i : crashed_idx) {
         uint64_t seed = mix64(o.seed, (uint64_t)i);
@@ -577,7 +578,7 @@ inline int engine_main(Engine& e, int argc, char** argv) {
         else if (a == "--budget-s") o.budget_s = atof(nx().c_str()); else if (a == "--tier") o.tier = nx();
         else if (a == "--outdir") o.outdir = nx(); else if (a == "--property") o.property = nx();
         else if (a == "--replay") replay = nx(); else if (a == "--verbose") verbose = true; else if (a == "--gen") gen = true;
-        else if (a == "--one") one = true; else if (a == "--max-viol") o.max_viol = atoi(nx().c_str());
+        else if (a == "--hash-out") o.hash_out = nx(); else if (a == "--one") one = true; else if (a == "--max-viol") o.max_viol = atoi(nx().c_str());
         else { fprintf(stderr, "unknown argument %s\n", a.c_str()); return 2; }
     }
     if (gen) { Plan p = e.generate(o.seed, o.mode, o.tier); fputs(p.text().c_str(), stdout); return 0; }
